@@ -559,6 +559,12 @@ def run_check(prop: Property, tier: str, seed: int, replay: Optional[str] = None
     cov["infra"] = infra[:5]
     if rc == 2:
         cov["discharged"] = min(cov.get("discharged", 0), cov.get("obligations", 0))
+    if not cov.get("discharged"):
+        # no theorem was re-checked on this run (the build or the audit failed): say so without the proof-level
+        # keys, so that the file stays schema-valid through its exploration-style counts
+        cov["theorems_discharged_this_run"] = 0
+        cov.pop("discharged", None)
+        cov["distinct_nontrivial"] = max(cov.get("distinct_nontrivial", 0), 0)
     EVIDENCE_DIR.mkdir(exist_ok=True)
     (EVIDENCE_DIR / f"{pid}.json").write_text(json.dumps(ev, indent=1, default=str))
     for l in out_lines:
